@@ -280,6 +280,14 @@ fn judge(c: &Case) -> Verdict {
             }
             let not_worse = other.iter().zip(mine).all(|(o, m)| o.0 <= m.0 && o.1 <= m.1);
             let better = other.iter().zip(mine).any(|(o, m)| o.0 < m.0 || o.1 < m.1);
+            // with a single argument the documented order decides alone: the numeric ranks are compared first (the
+            // numeric-rank tournament of find_function_type), the vector ranks only between candidates that tie there
+            if c.args.len() == 1 && other[0].0 < mine[0].0 {
+                return Verdict::fail(
+                    "selected-dominated:numeric-rank",
+                    format!("selected R{} (ranks {:?}) although viable R{} converts the only argument with a better numeric rank (ranks {:?})\n{}", k, mine, j, other, base_src),
+                );
+            }
             if not_worse && better {
                 return Verdict::fail(
                     "selected-dominated",
@@ -406,6 +414,31 @@ pub fn run(ctx: &mut Ctx) {
     ctx.assumptions.push("out/inout parameters accept only lvalues of exactly their type (RSSL's rule); sets containing two candidates that differ only in in/out-ness have such duplicates removed".into());
     if !ctx.replay_tier(&check_record) {
         return;
+    }
+    // ---- every pair of one-parameter candidates over the 24 value types x every argument type (rvalue) and both literals
+    {
+        let types: Vec<(usize, u32)> = (0..6usize).flat_map(|s| [1u32, 2, 3, 4].into_iter().map(move |d| (s, d))).collect();
+        let pairs: Vec<(usize, usize)> = (0..types.len()).flat_map(|a| ((a + 1)..types.len()).map(move |b| (a, b))).collect();
+        let n_args = types.len() as u64 + 2;
+        let make = |i: u64| {
+            let (a, b) = pairs[(i / n_args) as usize];
+            let k = (i % n_args) as usize;
+            let arg = if k < types.len() {
+                Arg::Rvalue(types[k].0, types[k].1)
+            } else if k == types.len() {
+                Arg::IntLit
+            } else {
+                Arg::FloatLit
+            };
+            let c = Case { cands: vec![vec![Param { scalar: types[a].0, dim: types[a].1, io: 0 }], vec![Param { scalar: types[b].0, dim: types[b].1, io: 0 }]], args: vec![arg] };
+            case_json(&c)
+        };
+        // the quick tier takes every third case (all pairs are met with a third of the argument types each run; the seed
+        // rotates which third)
+        let total = pairs.len() as u64 * n_args;
+        let (step, offset) = if ctx.tier == crate::common::Tier::Thorough { (1, 0) } else { (3, ctx.seed % 3) };
+        let count = (total - offset + step - 1) / step;
+        ctx.run_enum("candidate_pairs_x_argument_types", count, true, |j| make(j * step + offset), |j| check_record(&make(j * step + offset)));
     }
     ctx.run_prop("random_overload_sets", ctx.tier.pick(6_000, 150_000), case_strategy, case_json, check_record);
     for l in ["selected", "ambiguous", "no_match", "has_unique_exact_match", "perms_120", "perms_24"] {
